@@ -220,6 +220,14 @@ def run(run):
     for _ in range(nrand):
         angles.append(rng.uniform(-1000, 1000))
         angles.append(float(rng.randrange(-800, 800)))
+    # (the protocol does not clamp a yaw: very large magnitudes, where a
+    # float product loses the turn count's low bits, are still angles)
+    import sys as _sys
+    angles += [1e16, -1e16, 8.44e16, -3.3e17, 2.0 ** 60 + 2.0 ** 9, 1e22,
+               -7.7e40, 1e308, _sys.float_info.max, -_sys.float_info.max,
+               10 ** 17 + 45, -(10 ** 20) - 90]
+    for _ in range(nrand // 10):
+        angles.append(rng.uniform(-1, 1) * 10.0 ** rng.randrange(15, 300))
 
     def angle_ref(v):
         nearest, within = rw.angle_byte_candidates(v)
@@ -326,6 +334,27 @@ def run(run):
     for label, ctx, layout in (('@757', ctx_new, 'xzy'), ('@47', ctx_old,
                                                           'xyz')):
         add('PrefixedArray^3(Position)' + label, pa3, pa3_vals,
+            arr_ref(lambda n: bytes([n]), arr_ref(rv.encode, arr_ref(
+                lambda n: rw.int_be(n, 1, True),
+                lambda p, layout=layout: rw.pack_position(
+                    p[0], p[1], p[2], layout)))), pa3cmp, ctx=ctx)
+
+    # the same array built from *user subclasses* of the library's types (a
+    # position type with helpers of the program's own, an array type with a
+    # name): the element codecs are inherited, not defined in the subclass
+    class UserPosition(T.Position):
+        __slots__ = ()
+
+        def manhattan(self):
+            return abs(self.x) + abs(self.y) + abs(self.z)
+
+    class UserArray(T.PrefixedArray):
+        __slots__ = ()
+    pa4 = T.PrefixedArray(T.UnsignedByte, UserArray(
+        T.VarInt, T.PrefixedArray(T.Byte, UserPosition)))
+    for label, ctx, layout in (('@757', ctx_new, 'xzy'), ('@47', ctx_old,
+                                                          'xyz')):
+        add('PrefixedArray^3(user subclasses)' + label, pa4, pa3_vals,
             arr_ref(lambda n: bytes([n]), arr_ref(rv.encode, arr_ref(
                 lambda n: rw.int_be(n, 1, True),
                 lambda p, layout=layout: rw.pack_position(
